@@ -13,7 +13,7 @@ FAULTS_BY_KIND = {
     "connect_tcp": ["ConnectError", "ConnectTimeout"],
     "connect_unix": ["ConnectError", "ConnectTimeout"],
     "start_tls": ["ConnectError", "ConnectTimeout"],
-    "read": ["ReadError", "ReadTimeout", "EOF"],
+    "read": ["ReadError", "ReadTimeout", "EOF", "Garbage"],
     "write": ["WriteError", "WriteTimeout"],
 }
 
